@@ -9,9 +9,11 @@ ID = "C08"
 HARNESSES = [dict(name="radius", pkg="./plugins/auth/radius/", test="TestVerifC08", timeout=900,
                   files=[("plugins/auth/radius/zz_verif_c08_test.go", "harness/C08/zz_verif_c08_test.go")])]
 MODEL_NEEDS_IMPL = True
-# model variants: "repaired" = every repair (full theorems); "head" = /repo HEAD (the five committed fixes; not the
-# Event-Timestamp requirement: the one recorded known finding).  Regressions of committed fixes match neither: VIOLATIONs.
-VARIANTS = ["repaired", "head"]
+# model variants: "repaired" = every repair (full theorems); "head" = /repo HEAD (the five committed fixes; neither the
+# Event-Timestamp requirement nor the extra second of duplicate-cache lifetime: two recorded known findings); "head_nots" /
+# "head_nottl" = HEAD with exactly one of the two present (attribution of a mismatch to ONE finding).  Regressions of
+# committed fixes match none of them: VIOLATIONs.
+VARIANTS = ["repaired", "head_nots", "head_nottl", "head"]
 RULE = ("reply: 1-3 sequential exchanges on one real radiusConn over loopback UDP (identifier and request authenticator "
         "forced, identifier often re-used between rounds; 30 % of non-final rounds are HELD, i.e. overlap with the next "
         "exchange, mostly on the same identifier); per round 1-5 datagrams from the classes genuine / genuine+MA / "
@@ -24,7 +26,7 @@ RULE = ("reply: 1-3 sequential exchanges on one real radiusConn over loopback UD
         "absent / RFC 5176 / as-transmitted / garbage / one bit flipped / irregular (wrong length, repeated: either answer admissible), request authenticator also with one bit flipped in any octet, Event-Timestamp absent / inside / at +-window / one past / far / zero, "
         "targets of all four kinds, mutable, stripped, non-whitelisted and vendor attributes, Proxy-State, length field "
         "off by some octets, trailing octets (incl. a fake attribute 80), literal junk; in 45 % of the cases a byte-identical copy "
-        "of an earlier datagram of the case is re-sent later (replay, possibly from another address). auth: Provider.Authenticate "
+        "of an earlier datagram of the case is re-sent later (in the `ttl` family a chosen number of milliseconds later, against a 1 s window) (replay, possibly from another address). auth: Provider.Authenticate "
         "against a server that answers the live request with scripted genuine/forged/flipped replies (decision by the Coq "
         "function authenticate_radius; the model prints the request it expects on the wire). corpus: defect witnesses, "
         "Go literal tables (lits) and one CoA per pkg/aaa attribute name. "
@@ -299,6 +301,20 @@ def gen_coa_packet(rng, clients, win, nasid, force_ts=False):
         src, bus, code, rng.randrange(256), sign, ma, lend, trail, at)
 
 
+def gen_coa_ttl(rng):
+    """Lifetime of the duplicate cache: window 1 s (lifetime 2 s on HEAD).  A correctly signed request stamped 0 or 1 s ahead
+    is sent early in a wall-clock second, then re-sent byte-identically a chosen time later: inside the lifetime, in the last
+    admitted second just after the entry expired (HEAD executes it again), after the window closed."""
+    key = K1
+    tgt = rng.choice(["1:" + hx(b"alice"), "8:0a010203", "44:" + hx(b"sess-ttl")])
+    code = rng.choice([40, 43])
+    attrs = tgt + (",27:0000003c" if code == 43 else "") + ",55:" + rng.choice(["TS+1", "TS+1", "TS+0"])
+    first = "src=127.0.0.2 bus=ok align=300 code=%d id=%d sign=S:%s ma=none lend=0 trail=- attrs=%s" % (code, rng.randrange(256), hx(key), attrs)
+    after = rng.choice([2350, 2350, 2350, 1200, 1900, 3300, 2050])
+    pk = [first, "src=127.0.0.2 bus=ok dup=0 after=0:%d" % after]
+    return "coa win=1 nasid=- maps=- clients=127.0.0.2/%s %d " % (hx(key), len(pk)) + " | ".join(pk) + " |"
+
+
 def gen_coa(rng):
     clients = rng.choice(CLIENT_SETS)
     win = rng.choice([300, 300, 10, 0])
@@ -383,7 +399,7 @@ def gen_cases(rng, tier, budget):
     nr, nc, na, nf = (300, 900, 80, 90) if q else (4000, 10000, 800, 900)
     if budget:
         nr, nc, na, nf = budget, budget, max(10, budget // 5), max(10, budget // 5)
-    cases = []
+    cases = [gen_coa_ttl(rng) for _ in range(5 if q else 40)]
     for i in range(max(nr, nc, na, nf)):
         if i < nf:
             cases.append(gen_fail(rng))
@@ -408,7 +424,7 @@ def _tok(seg, key):
 
 def _coa_proj(seg):
     t = seg.split()
-    outcome = t[2] if len(t) > 2 else "?"
+    outcome = next((x for x in t if x in ("drop", "silent", "reply")), "?")
     return outcome, _tok(seg, "ev"), _tok(seg, "ra"), _tok(seg, "ma")
 
 
@@ -461,11 +477,14 @@ def _usable_ts(kv, pk):
 
 
 def signature(case, impl, models):
-    """One finding is recorded.  A mismatch against [repaired] is attributed to it only if the implementation's line equals
-    the [head] model's line and every differing packet has the input class of the finding: window > 0, recipe (or, for a
-    `dup=` packet, the recipe it copies) without usable Event-Timestamp, answered by the implementation, dropped by
-    [repaired].  Anything else is a VIOLATION."""
-    if case.split(" ", 1)[0] != "coa" or models.get("head") != impl:
+    """Two findings are recorded.  A mismatch against [repaired] is attributed to ONE of them only if the implementation's
+    line equals the model with exactly that finding present and every differing packet has the finding's input class:
+      coa-without-event-timestamp-bypasses-window: window > 0, recipe (or the recipe a `dup=` packet copies) without usable
+        Event-Timestamp, answered by the implementation, dropped by [repaired];
+      coa-duplicate-cache-expires-inside-window: a timed replay (`dup=` with `after=`) that the implementation executed again
+        (event published) while [repaired] answers it from the cache.
+    Anything else is a VIOLATION."""
+    if case.split(" ", 1)[0] != "coa":
         return None
     rep = models.get("repaired", "")
     pk = _pkts(case)
@@ -473,14 +492,29 @@ def signature(case, impl, models):
     si, sr = _segs(impl), _segs(rep)
     if win <= 0 or len(pk) != len(si) or len(si) != len(sr):
         return None
-    hit = False
-    for kv, a, b in zip(pk, si, sr):
-        if a == b:
-            continue
-        if _usable_ts(kv, pk) is not False or _coa_proj(a)[0] != "reply" or _coa_proj(b)[0] != "drop":
-            return None
-        hit = True
-    return "coa-without-event-timestamp-bypasses-window" if hit else None
+    if models.get("head_nots") == impl:
+        hit = False
+        for kv, a, b in zip(pk, si, sr):
+            if a == b:
+                continue
+            if _usable_ts(kv, pk) is not False or _coa_proj(a)[0] != "reply" or _coa_proj(b)[0] != "drop":
+                return None
+            hit = True
+        return "coa-without-event-timestamp-bypasses-window" if hit else None
+    if models.get("head_nottl") == impl:
+        hit = False
+        for kv, a, b in zip(pk, si, sr):
+            if a == b:
+                continue
+            # [repaired] still holds the entry and answers from the cache; the implementation's entry has expired: it either
+            # executes the request again (the finding proper) or, when the window has closed meanwhile, drops it
+            if "dup" not in kv or "after" not in kv or _tok(b, "ev") != "noev" or _tok(b, "st") != "none":
+                return None
+            if _tok(a, "ev") == "noev" and _coa_proj(a)[0] != "drop":
+                return None
+            hit = True
+        return "coa-duplicate-cache-expires-inside-window" if hit else None
+    return None
 
 
 def nontrivial(case, out):
@@ -528,6 +562,7 @@ def distribution(cases, impl):
                 if r:
                     codes[r[:2]] = codes.get(r[:2], 0) + 1
             d["coa_duplicate_packets"] = d.get("coa_duplicate_packets", 0) + c.count(" dup=")
+            d["coa_timed_replays"] = d.get("coa_timed_replays", 0) + c.count(" after=")
         elif k == "fail":
             d["failover_cases"] = d.get("failover_cases", 0) + 1
             d["failover_second_server_tried"] = d.get("failover_second_server_tried", 0) + ("s1:req=-" not in o)
